@@ -9,6 +9,10 @@
    observation only sets the start time, and the last value is overwritten on
    every accepted call (also when closed).  [_start_time] / [_last_timestamp]
    start as math.nan: [None] here (a stored timestamp is never NaN).
+   The value is taken as [float(value)] (identity on [ONum]'s universe); the
+   timestamp is NOT coerced: Python subtracts and compares int timestamps
+   exactly, so the statistics depend on differences only, and the harness runs
+   int clocks beyond 2^53 on this binary64 model shifted by their first value.
    [ts_end] is end_observations: register(timestamp, last value), then inactive
    (not reached when the register raises).
 
